@@ -81,7 +81,8 @@ def unit_list(fe):
 
 
 def get_units():
-    us = [Unit('%s/validate_unit_id' % PROP, validate_unit_id, [PROP], functions=[FR + '._validate_unit_id'])]
+    from . import store_contracts as STC
+    us = [STC.default_blocks_unit(PROP), Unit('%s/validate_unit_id' % PROP, validate_unit_id, [PROP], functions=[FR + '._validate_unit_id'])]
     for fe in S.FRONTENDS:
         us.append(Unit('%s/routing.%s' % (PROP, fe), S.serve_unicast(fe, PROP, clauses=('routing', 'absent')), [PROP], functions=S.FUNCS[fe]))
         if S.FRONTENDS[fe][2]:
